@@ -10,6 +10,7 @@ package c09
 import (
 	"encoding/json"
 	"fmt"
+	"strings"
 	"time"
 
 	"verif/engine"
@@ -229,6 +230,66 @@ func keyListConfigs() []srv.Cfg {
 	return out
 }
 
+// concurrent: clients using different keys of one service at the same time (one address, and
+// two addresses), then every key once more: every configured key is served on its listener
+// whatever the interleaving of the authentications.
+func concurrent(sameIP bool) *engine.Scenario {
+	c := srv.Cfg{Services: []srv.Svc{{Listeners: []srv.Ln{{Type: "tcp", Addr: "127.0.0.1:9000"}}, Keys: keys(0, 1, 3)}}}
+	var res [2]srv.ProbeResult
+	var after []srv.ProbeResult
+	sc := &engine.Scenario{Name: fmt.Sprintf("config-concurrent[sameip=%v]", sameIP), Opt: vrt.Options{Horizon: 24 * time.Hour}}
+	sc.Body = func() {
+		res, after = [2]srv.ProbeResult{}, nil
+		w := srv.NewWorld()
+		if err := w.Boot(c, 0); err != nil {
+			panic(err)
+		}
+		l := c.Listeners()[0]
+		// earlier use, so that the entries carry client addresses
+		w.ProbeTCPFrom(l, universe[3], 7001, "203.0.113.201")
+		w.ProbeTCPFrom(l, universe[1], 7002, "203.0.113.202")
+		ips := []string{"203.0.113.201", "203.0.113.202"}
+		if sameIP {
+			ips[1] = ips[0]
+		}
+		var ts []*vrt.Thread
+		for i, k := range []srv.Key{universe[1], universe[3]} {
+			i, k := i, k
+			ts = append(ts, vrt.Spawn(fmt.Sprintf("client%d", i), func() {
+				vrt.Yield("client")
+				res[i] = w.ProbeTCPFrom(l, k, uint64(7010+i), ips[i])
+			}))
+		}
+		vrt.Join(ts...)
+		vrt.WaitIdle()
+		for i, k := range []srv.Key{universe[0], universe[1], universe[3]} {
+			after = append(after, w.ProbeTCPFrom(l, k, uint64(7020+i), "203.0.113.201"))
+		}
+		w.Shutdown()
+	}
+	sc.Check = func(x *vrt.Exec) (string, bool, []*engine.Finding) {
+		fs := hk.Generic(x, hk.Opts{})
+		if len(fs) == 0 {
+			for i, r := range res {
+				if !r.Authed || !r.Served {
+					fs = append(fs, &engine.Finding{Sig: "configured-key-rejected{concurrent}", Msg: fmt.Sprintf("two clients using different keys of one service at the same time: client %d was not served (authenticated=%v status %s)", i, r.Authed, r.Status)})
+				}
+			}
+			for i, r := range after {
+				if !r.Authed || !r.Served {
+					fs = append(fs, &engine.Finding{Sig: "configured-key-rejected{after-concurrent-use}", Msg: fmt.Sprintf("after two clients had used different keys of one service at the same time, key #%d of the service was not served any more (authenticated=%v status %s)", i, r.Authed, r.Status)})
+				}
+			}
+		}
+		return fmt.Sprint(res[0].Status, res[1].Status, len(after)), true, fs
+	}
+	return sc
+}
+
+func concScenarios() []*engine.Scenario {
+	return []*engine.Scenario{concurrent(true), concurrent(false)}
+}
+
 func init() {
 	hk.Register("C01main", func(ctx *engine.Ctx) {
 		for i, c := range keyListConfigs() {
@@ -246,6 +307,13 @@ func init() {
 		return engine.ReplayCase("config-keylist", scenario(c), rp)
 	}
 	hk.Register("C09", func(ctx *engine.Ctx) {
+		bound := 1
+		if ctx.Tier == "thorough" {
+			bound = 2
+		}
+		for _, sc := range concScenarios() {
+			engine.ExploreS(ctx, sc, engine.SConfig{Bound: bound, Shard: ctx.Shard, NShards: ctx.NShards, Deadline: ctx.Deadline})
+		}
 		cfgs := Configs()
 		step := 3
 		if ctx.Tier == "thorough" {
@@ -266,6 +334,9 @@ func init() {
 		ctx.Res.Note("config-matrix: every %d-th of %d configurations, all (listener, key) pairs each", step, len(cfgs))
 	})
 	hk.Replayers["C09"] = func(ctx *engine.Ctx, rp engine.Replay) []*engine.Finding {
+		if strings.HasPrefix(rp.Unit, "config-concurrent") {
+			return engine.ReplayScenario(concScenarios(), rp)
+		}
 		var c srv.Cfg
 		if err := json.Unmarshal(rp.Input, &c); err != nil {
 			return []*engine.Finding{{Sig: "BROKEN:bad-input", Msg: err.Error()}}
